@@ -87,15 +87,19 @@ def jobs(tier):
     FMASK = ["hsl_hue", "hsl_saturation", "hsl_color", "hsl_luminosity", "over", "add", "multiply", "screen", "color_dodge",
              "soft_light", "disjoint_over", "conjoint_xor", "saturate"]
     for op in FMASK:
+        hsl = op.startswith("hsl")
         for ch in (0, 1, 2, 3):
-            if tier == "quick" and (ch in (0, 2) or op not in ("hsl_hue", "hsl_luminosity", "over")):
+            # HSL blends (min/max/division chains): proving the relation takes ~7 min per channel even on a 3-point
+            # grid (finding the counterexample of the defect fixed in a19799c took 1 min) -> thorough tier only
+            if tier == "quick" and (ch in (0, 2) or op != "over"):
                 continue
+            g = 3 if hsl else 1
             js.append(Job("float.maskgrid.%s.ch%d" % (op, ch), "C01/float_mask.c",
-                          defines={"VC_FN": "combine_%s_u_float" % op, "VC_CH": ch, "VC_GRID": 1}, kind="bounded",
-                          bound="every float input is one of {0, 1/4, 1/2, 3/4, 1}",
+                          defines={"VC_FN": "combine_%s_u_float" % op, "VC_CH": ch, "VC_GRID": g}, kind="bounded",
+                          bound="every float input is one of {0, 1/2, 1}" if hsl else "every float input is one of {0, 1/4, 1/2, 3/4, 1}",
                           functions=["combine_%s_u_float" % op],
-                          domain="one pixel, premultiplied (s, mask alpha, d) on the 5-point grid; relational: masked == pre-masked source",
-                          timeout=1800, min_props=1, unwind=6, assumptions=FASSUME[:1]))
+                          domain="one pixel, premultiplied (s, mask alpha, d) on the grid; relational: masked == pre-masked source",
+                          timeout=3600, min_props=1, unwind=6, assumptions=FASSUME[:1]))
     for fn, op, code, mode in combos():
         pdf = code >= 14
         # loop-free, full domain, replayable: one pixel, one channel per query (+ one frame query)
